@@ -44,6 +44,26 @@ def moved_cases(rng, n):
         yield dict(stacks=stacks, lat=[rng.choice([1, 500])], jit=[1], script=script, horizon=4_000_000, meta=dict(kind='moved-ca', A=A))
 
 
+def chain_cases(rng, n):
+    """replies that are processed before the sending call has returned, one step further: B's application answers A's long
+    message from its receive callback, and A's application submits its NEXT long message to B from the callback for that
+    answer (all inside the call that handed A's last data packet to the bus); A's application thread also retries a little
+    later.  Whatever send_pgn accepts must arrive exactly once."""
+    for k in range(n):
+        a, b = rng.choice([(0x10, 0x20), (0, 0x21), (0x80, 0x7F)])
+        n1, n2 = rng.choice([9, 15, 30, 64]), rng.choice([9, 20, 33])
+        m2 = [0, 0xD2, b, 6, a, dict(seed=rng.getrandbits(20), len=n2)]
+        m3 = [0, 0xD3, b, 6, a, dict(seed=rng.getrandbits(20), len=rng.choice([9, 12]))]
+        stacks = [dict(dll='j1939-21', max_cmdt=rng.choice([1, 3, 255]),
+                       subs=[dict(cid=1, filt=a, script=[dict(op='send', if_pgn=0xD100, once='m2', a=m2)])], cas=[]),
+                  dict(dll='j1939-21', max_cmdt=rng.choice([1, 2, 255]),
+                       subs=[dict(cid=2, filt=b, script=[dict(op='send', if_pgn=0xD000, once='reply', a=[0, 0xD1, a, 6, b, [1, 2, 3, k % 256]])])], cas=[])]
+        script = [dict(t=1000, s=0, op='send', a=[0, 0xD0, b, 6, a, dict(seed=rng.getrandbits(20), len=n1)])]
+        script += [dict(t=1000 + d, s=0, op='send', a=m3) for d in rng.sample([300, 1000, 3000, 20000, 60000, 200000], 3)]
+        yield dict(stacks=stacks, lat=[0], jit=[1], script=sorted(script, key=lambda e: e['t']), horizon=4_000_000,
+                   meta=dict(kind='reply-chain', callback_sends=True))
+
+
 def scenario_runner(sc):
     import scen
     return scen.run(sc)
@@ -76,7 +96,7 @@ def run(out, tier, rng, work):
                 'from {0 (re-entrant),1us,0.5ms,5ms}; oracle: observed callbacks == expected deliveries + one EndOfMsgACK report per '
                 'completed CMDT; every handler log replayed on the Coq model (digest of all outputs and state summaries); '
                 'non-trivial = at least one TP.CM/TP.DT frame on the bus; distinct by scenario hash'
-                " Plus: 'moved CA' family (the addressed CA lost its preferred address and holds the next one), cyclic application timers on the ECUs in a quarter of the scenarios, and the closed-loop correspondence of the network model (Net21.v) against two real stacks incl. broadcast.")
+                " Plus: 'reply chain' family (zero latency; the next message to the same peer is submitted from the callback for the peer's answer, inside the call that sent the last packet), 'moved CA' family (the addressed CA lost its preferred address and holds the next one), cyclic application timers on the ECUs in a quarter of the scenarios, and the closed-loop correspondence of the network model (Net21.v) against two real stacks incl. broadcast.")
     out.assumptions = ['A1-A6 of DESIGN.md section 3 (exact clock, atomic zero-duration handlers, FIFO bus per receiver)',
                        'the closed-loop theorem (T01.8) is for one transfer between two otherwise idle nodes without pacing, under the '
                        'schedule of Net21.v (frames first, then the job threads); any-schedule and many-transfer network theorems are '
@@ -92,6 +112,14 @@ def run(out, tier, rng, work):
         for x in moved_oracle(sc, res)[:1]:
             out.violation('%s: %s' % (x['kind'], str(x)[:250]), dict(kind=x['kind']), dict(broke='oracle', scenario=sc, violation=x, scenario_name='moved-ca',
                           how='./check replay <this file> re-runs the scenario on /repo and prints the oracle verdict'))
+            break
+    for sc in chain_cases(rng, 6 if tier == 'quick' else 60):
+        res = _scen.run(sc)
+        out.add_case(_scen.sc_hash(sc), True)
+        for x in oracle_tp.check_exactly_once(sc, res)[:1]:
+            out.violation('%s in a reply chain between callbacks: %s' % (x['kind'], str(x)[:250]), dict(kind=x['kind']),
+                          dict(broke='oracle', scenario=sc, violation=x, scenario_name='reply-chain',
+                               how='./check replay <this file> re-runs the scenario on /repo and prints the oracle verdict'))
             break
     # closed-loop correspondence: the network model of theorem C01_closed_loop_delivers against two real stacks
     n, mism, errors, bad = netcorr.run(work, rng, 16 if tier == 'quick' else 160, big=(tier != 'quick'), tag='c01net', only='21')
